@@ -29,9 +29,10 @@ ASSUMPTIONS = [
     "recv() never blocks: an exhausted stream raises socket.timeout",
 ]
 FLOORS = {
-    "quick": {"segmented-executions": 30000, "cut-inside-literal": 3000, "streams": 150,
+    "quick": {"segmented-executions": 30000, "segmented-executions-with-client-debug": 8000, "cut-inside-literal": 3000, "streams": 150,
               "boundary-streams-exact-multiple-of-read-size": 12},
-    "thorough": {"segmented-executions": 1500000, "cut-inside-literal": 100000,
+    "thorough": {"segmented-executions": 1500000,
+                 "segmented-executions-with-client-debug": 300000, "cut-inside-literal": 100000,
                  "streams": 3000, "boundary-streams-exact-multiple-of-read-size": 12},
 }
 SHARD_TIMEOUT = {"quick": 600, "thorough": 3000}
@@ -94,11 +95,11 @@ def reply_corpus(rng, n):
 SENT = b'OK "sentinel one"\r\nNO (SENTINEL-7) "sentinel two"\r\n'
 
 
-def execute(op, args, stream, seg, connect_stream=None):
+def execute(op, args, stream, seg, connect_stream=None, debug=False):
     """Run op + two sentinels against `stream` under segmentation `seg`.
     -> (outcome key, unread bytes, client buffer)"""
     srv = ms.Server(users={b"user": b"pw"}, encodings="quoted")
-    sess, r = mslab.authed_session(srv)
+    sess, r = mslab.authed_session(srv, debug=debug)
     if r != ("ret", True):
         return None
     srv.canned = [stream, b'OK "sentinel one"\r\n', b'NO (SENTINEL-7) "sentinel two"\r\n']
@@ -231,9 +232,20 @@ def run_replies(shard, res: Result, tier):
             segs = [s for s in segs if s[0] != "cut" or s[1][0] % 257 == 0 or
                     s[1][0] > len(stream) - 8 or abs(s[1][0] % 4096 - 4096) <= 2
                     or s[1][0] % 4096 <= 2] + [("cap", 1000), ("cap", 4095), ("cap", 4096)]
-        for kind, p in segs:
-            got = execute(op, args, stream, mkseg(kind, p))
+        # the client's debug switch only adds traces: streams with non-ASCII octets (where a
+        # cut can fall inside a character) and every 5th other stream also run with it
+        try:
+            stream.decode("ascii")
+            dbg = res.counters.get("streams", 0) % 5 == 0
+        except UnicodeDecodeError:
+            dbg = True
+        runs = [(k, p, False) for k, p in segs] + ([(k, p, True) for k, p in segs] if dbg else [])
+        for kind, p, debug in runs:
+            got = execute(op, args, stream, mkseg(kind, p), debug=debug)
             res.count("segmented-executions")
+            if debug:
+                res.count("segmented-executions-with-client-debug")
+                kind_l = kind
             res.observe("segmentation-kinds", kind)
             res.case(repr((op, stream, kind, p)))
             inside = kind in ("cut", "cut2") and any(a < c < e for c in p for a, e in spans)
@@ -249,6 +261,7 @@ def run_replies(shard, res: Result, tier):
                                ("cap/random" if kind in ("cap", "random") else
                                 "outside-literal")},
                               {"op": op, "stream": stream, "segmentation": [kind, repr(p)],
+                               "client_debug": debug,
                                "whole": repr(base[0])[:300], "segmented": repr(got[0])[:300]})
                 continue
             # quiescence only where the baseline itself is quiescent
@@ -371,7 +384,7 @@ def replay(witness, res: Result):
             "checkscript": ("keep;",), "deletescript": ("x",), "renamescript": ("x", "y"),
             "setactive": ("x",), "havespace": ("x", 5)}[op]
     base = execute(op, args, stream, ms.Seg())
-    got = execute(op, args, stream, mkseg(kind, p))
+    got = execute(op, args, stream, mkseg(kind, p), debug=bool(witness.get("client_debug")))
     print("whole    :", base[0])
     print("segmented:", got[0])
     if got[0] != base[0]:
